@@ -112,7 +112,7 @@ func report(w *World, prop, tier string, seed int, t0 time.Time, gens []*Gen, tr
 	exit := 0
 	if len(genErrs) > 0 {
 		for i, e := range genErrs {
-			if i >= 15 {
+			if i >= 4 {
 				fmt.Printf("gvc: ... %d more generation errors\n", len(genErrs)-i)
 				break
 			}
